@@ -9,7 +9,9 @@
         payees (sequence: term index + 1 -> sequence of [a: income account, v: votes] of that term's nodes),
         prec (reward precision), rm (reward manager), rc (reward precompile account), rpool (reward pool total)
    dv - set of deviation keys switched on (known defects of the implementation, see Ledger.tla)
-   s  - ledger state: bal, votes, vf (voteFor), reg ("no" | "yes" | "was"), dep, eq (asset equity), sup, frz, code;
+   s  - ledger state: bal, votes, vf (voteFor), reg ("no" | "yes" | "was"), dep, code;
+        issued assets: sup / frz (asset code -> recorded total supply / frozen), eq (asset id -> holder -> equity),
+        idc (asset id -> the asset code it belongs to, NONE while the id has not been issued);
         h (height of the block this is the end state of), T / I (term / interim duration in blocks),
         rwd / rwt (sequences, term index + 1 -> term reward set through the precompile / how often it was set),
         idx (the accounts in the node's candidate index: candidates as of the last STABLE block - the reward block
@@ -18,15 +20,21 @@
         Finalize), rew (LEMO legitimately issued), burn (LEMO legitimately destroyed), bad (an included asset
         transaction that C12 forbids: wrong sender, non-positive issue, negative / oversized / frozen transfer)
    t  - transaction record: k, f, t, p (gas payer), amt, gl, gp, gu (gas used), inc (packaged), subs,
-        x (kind specific: the term of a reward setting)                                                        *)
-EXTENDS Integers, Sequences, FiniteSets
+        x (kind specific: the term of a reward setting), c / id (asset code / asset id an asset transaction names)
+
+   Issued assets (c.assets: asset code -> [cat, div, repl, iss]).  The code distinguishes three categories: 1 = token
+   (one asset id, equal to the code; always divisible), 2 = non-fungible (indivisible, never replenished), 3 = common
+   (any flags); in categories 2 and 3 every IssueAsset transaction creates a NEW asset id (the hash of that
+   transaction) under the code, so one code has several ids, each with its own holders and metadata.  Freeze and the
+   recorded total supply belong to the CODE.  An indivisible id moves as a whole and counts 1 in the supply.        *)
+EXTENDS Integers, Sequences, FiniteSets, Functions
 
 NONE == "none"
 W(c, x) == x \div c.V
 
-RECURSIVE SumOver(_, _)
-SumOver(f, S) == IF S = {} THEN 0 ELSE LET x == CHOOSE y \in S : TRUE IN f[x] + SumOver(f, S \ {x})
-Total(f) == SumOver(f, DOMAIN f)
+\* sums over functions (Functions!FoldFunction*: evaluated by TLC's Java override)
+SumOver(f, S) == FoldFunctionOnSet(LAMBDA x, y : x + y, 0, f, S)
+Total(f) == FoldFunction(LAMBDA x, y : x + y, 0, f)
 
 RECURSIVE SumGas(_, _)
 SumGas(q, i) == IF i > Len(q) THEN 0 ELSE q[i].gu + SumGas(q, i + 1)
@@ -50,15 +58,22 @@ Move(b, f, t, n) == [b EXCEPT !.s.bal[f] = @ - n, !.s.bal[t] = @ + n]
 Bad(b) == [b EXCEPT !.bad = TRUE]
 
 (* ---------------------------------------------------------------- LEMO transfers and contract value flows *)
-\* A contract behaves as such only while it has code (s.code); SELFDESTRUCT removes the code at once.
-OpXfer(c, b, t) ==
+\* A contract behaves as such only while it has code (s.code); SELFDESTRUCT removes the code at once.  What a contract
+\* holds of an issued asset is NOT touched by its self-destruction (nobody but the holder moves or destroys equity).
+\* Mut_SuicideClearsEquity (not a known defect: negative control of the design runs) wipes it.
+Wipe(dv, b, k) == IF "Mut_SuicideClearsEquity" \in dv
+                  THEN LET e == b.s.eq IN [b EXCEPT !.s.eq = [i \in DOMAIN e |-> [e[i] EXCEPT ![k] = 0]]] ELSE b
+\* the code of contract k runs, called by `by` (after the value, if any, has arrived)
+RunCode(c, dv, b, k, by) ==
+  IF ~b.s.code[k] THEN b
+  ELSE IF k \in c.burn THEN Wipe(dv, [b EXCEPT !.burn = @ + b.s.bal[k], !.s.bal[k] = 0, !.s.code[k] = FALSE], k)   \* SELFDESTRUCT(self): explicit burn
+  ELSE IF k \in c.back THEN LET had == b.s.bal[k] IN                                    \* SELFDESTRUCT(caller): all of it goes to the caller
+                            Wipe(dv, [b EXCEPT !.s.bal[k] = 0, !.s.bal[by] = @ + had, !.s.code[k] = FALSE], k)
+  ELSE b
+OpXfer(c, dv, b, t) ==
   LET b1 == Charge(b, t.p, Fee(t))  alive == b.s.code[t.t] IN
-  CASE t.t \in c.rev /\ alive  -> b1                                          \* call fails: the amount does not move
-    [] t.t \in c.burn /\ alive -> [b1 EXCEPT !.s.bal[t.f] = @ - t.amt,         \* SELFDESTRUCT(self): explicit burn
-                                             !.burn = @ + t.amt + b1.s.bal[t.t], !.s.bal[t.t] = 0, !.s.code[t.t] = FALSE]
-    [] t.t \in c.back /\ alive -> LET had == b1.s.bal[t.t] IN                  \* SELFDESTRUCT(caller): all of it goes to the caller
-                                  [b1 EXCEPT !.s.bal[t.t] = 0, !.s.bal[t.f] = @ + had, !.s.code[t.t] = FALSE]
-    [] OTHER                   -> Move(b1, t.f, t.t, t.amt)
+  IF t.t \in c.rev /\ alive THEN b1                                          \* call fails: the amount does not move
+  ELSE RunCode(c, dv, Move(b1, t.f, t.t, t.amt), t.t, t.f)
 
 (* ---------------------------------------------------------------- votes *)
 \* A vote moves the voter's weight from its previous (still registered) candidate to the new one.  The weight that
@@ -102,31 +117,61 @@ OpSetRew(c, b, t) ==
             /\ SumSeq([b.s.rwd EXCEPT ![k] = t.amt], 1) <= c.rpool
   IN IF ok THEN [b1 EXCEPT !.s.rwd[k] = t.amt, !.s.rwt[k] = @ + 1] ELSE b1
 
-(* ---------------------------------------------------------------- the issued asset (one divisible token) *)
-OpIssue(c, b, t) ==   \* issue and replenish: only the issuer, only a positive amount, not while frozen
-  LET b1 == Charge(b, t.p, Fee(t)) IN
-  IF t.f = c.issuer /\ t.amt > 0 /\ ~b.s.frz
-  THEN [b1 EXCEPT !.s.sup = @ + t.amt, !.s.eq[t.t] = @ + t.amt]
-  ELSE Bad(b1)
-OpATransfer(c, dv, b, t) ==  \* out of the sender's own equity only, a non-negative amount it owns, not while frozen
+(* ---------------------------------------------------------------- issued assets *)
+KnownCode(c, x) == x \in DOMAIN c.assets
+Frozen(dv, s, code, id) ==   \* the freeze flag belongs to the asset CODE (Mut_FreezeLookupById: negative control of the design runs)
+  IF "Mut_FreezeLookupById" \in dv THEN id \in DOMAIN s.frz /\ s.frz[id] ELSE s.frz[code]
+\* issue: only the issuer, only a positive amount, not while frozen; a token is credited under its one id (= the code),
+\* in the other categories the transaction creates a new id that belongs to the receiver
+OpIssue(c, dv, b, t) ==
   LET b1 == Charge(b, t.p, Fee(t))
-      ok == /\ ~b.s.frz /\ b.s.eq[t.f] > 0 /\ t.amt <= b.s.eq[t.f]
-            /\ (t.amt >= 0 \/ "Dev_NegativeAssetTransfer" \in dv)
+      as == c.assets[t.c]
+      ok == /\ KnownCode(c, t.c) /\ t.f = as.iss /\ t.amt > 0 /\ ~b.s.frz[t.c] /\ t.id \in DOMAIN b.s.eq
+            /\ IF as.cat = 1 THEN t.id = t.c ELSE b.s.idc[t.id] = NONE
   IN IF ~ok THEN Bad(b1)
-     ELSE IF t.t \in c.rev /\ b.s.code[t.t] THEN b1
-     ELSE IF t.t = c.zero THEN [b1 EXCEPT !.s.eq[t.f] = @ - t.amt, !.s.sup = @ - t.amt]     \* holder destroys its own equity
-     ELSE [b1 EXCEPT !.s.eq[t.f] = @ - t.amt, !.s.eq[t.t] = @ + t.amt]
+     ELSE [b1 EXCEPT !.s.sup[t.c] = @ + (IF as.div THEN t.amt ELSE 1), !.s.eq[t.id][t.t] = @ + t.amt, !.s.idc[t.id] = t.c]
+\* replenish: only the issuer, only a positive amount, only a divisible asset flagged replenishable, not while frozen,
+\* under an id of that code (an id nobody holds yet becomes one of the code's ids)
+OpRepl(c, dv, b, t) ==
+  LET b1 == Charge(b, t.p, Fee(t))
+      as == c.assets[t.c]
+      ok == /\ KnownCode(c, t.c) /\ t.f = as.iss /\ t.amt > 0 /\ ~b.s.frz[t.c] /\ as.div /\ as.repl
+            /\ t.id \in DOMAIN b.s.eq /\ b.s.idc[t.id] \in {t.c, NONE}
+  IN IF ~ok THEN Bad(b1)
+     ELSE [b1 EXCEPT !.s.sup[t.c] = @ + t.amt, !.s.eq[t.id][t.t] = @ + t.amt, !.s.idc[t.id] = t.c]
+\* transfer: out of the sender's own equity under that id only, a non-negative amount it owns, not while the id's code is
+\* frozen; an indivisible id moves as a whole whatever amount is named; sent to the zero address the equity is
+\* destroyed and leaves the recorded supply; a receiver with code runs it (it may fail: nothing moves; it may
+\* self-destruct: it keeps what it holds).  Amount 0 to an address without code does nothing at all.
+OpATransfer(c, dv, b, t) ==
+  LET b1   == Charge(b, t.p, Fee(t))
+      id   == t.id
+      code == b.s.idc[id]
+      as   == c.assets[code]
+      have == b.s.eq[id][t.f]
+      ok   == /\ id \in DOMAIN b.s.eq /\ code # NONE /\ ~Frozen(dv, b.s, code, id) /\ have > 0
+              /\ (t.amt >= 0 \/ "Dev_NegativeAssetTransfer" \in dv)
+              /\ (as.div => t.amt <= have)
+      n    == IF as.div THEN t.amt ELSE have
+      alive == b.s.code[t.t]
+  IN IF ~ok THEN Bad(b1)
+     ELSE IF t.amt = 0 /\ ~alive THEN b1
+     ELSE IF t.t \in c.rev /\ alive THEN b1
+     ELSE IF t.t = c.zero THEN [b1 EXCEPT !.s.eq[id][t.f] = @ - n, !.s.sup[code] = @ - (IF as.div THEN n ELSE 1)]   \* holder destroys its own equity
+     ELSE RunCode(c, dv, [b1 EXCEPT !.s.eq[id][t.f] = @ - n, !.s.eq[id][t.t] = @ + n], t.t, t.f)
 OpFreeze(c, b, t, v) ==
-  LET b1 == Charge(b, t.p, Fee(t)) IN IF t.f = c.issuer THEN [b1 EXCEPT !.s.frz = v] ELSE Bad(b1)
+  LET b1 == Charge(b, t.p, Fee(t)) IN
+  IF KnownCode(c, t.c) /\ t.f = c.assets[t.c].iss THEN [b1 EXCEPT !.s.frz[t.c] = v] ELSE Bad(b1)
 
 (* ---------------------------------------------------------------- one transaction *)
 Plain(c, dv, b, t) ==
-  CASE t.k = "xfer"  -> OpXfer(c, b, t)
+  CASE t.k = "xfer"  -> OpXfer(c, dv, b, t)
     [] t.k = "vote"  -> OpVote(c, dv, b, t)
     [] t.k \in {"reg", "topup"} -> OpReg(c, b, t)
     [] t.k = "unreg" -> OpUnreg(c, b, t)
     [] t.k = "setrew" -> OpSetRew(c, b, t)
-    [] t.k \in {"issue", "repl"} -> OpIssue(c, b, t)
+    [] t.k = "issue" -> OpIssue(c, dv, b, t)
+    [] t.k = "repl"  -> OpRepl(c, dv, b, t)
     [] t.k = "axfer" -> OpATransfer(c, dv, b, t)
     [] t.k = "freeze" -> OpFreeze(c, b, t, TRUE)
     [] t.k = "unfreeze" -> OpFreeze(c, b, t, FALSE)
@@ -211,6 +256,16 @@ Tally(c, s, x) == IF s.reg[x] = "yes"
 VotesOK(c, s) == \A x \in DOMAIN s.votes : s.votes[x] = Tally(c, s, x) /\ s.votes[x] >= 0
 \* C05: what the deposit pool holds beyond the recorded deposits (constant: the pool is debited exactly by refunds)
 PoolSurplus(c, s) == s.bal[c.pool] - Total(s.dep)
-\* C12
-SupplyOK(s) == s.sup = Total(s.eq) /\ \A a \in DOMAIN s.eq : s.eq[a] >= 0
+\* C12: per asset code the recorded supply is what the holders own under the code's ids - the sum of all equity for a
+\* divisible asset, the number of ids that still exist (are held by somebody) for an indivisible one; nothing negative;
+\* an id that was never issued is held by nobody
+IdsOf(s, code) == {i \in DOMAIN s.idc : s.idc[i] = code}
+Held(s) == [i \in DOMAIN s.eq |-> Total(s.eq[i])]
+SupplyOK(c, s) ==
+  LET held == Held(s) IN
+  /\ \A i \in DOMAIN s.eq : \A a \in DOMAIN s.eq[i] : s.eq[i][a] >= 0
+  /\ \A i \in DOMAIN s.idc : s.idc[i] = NONE => held[i] = 0
+  /\ \A code \in DOMAIN c.assets :
+        s.sup[code] = IF c.assets[code].div THEN SumOver(held, IdsOf(s, code))
+                      ELSE Cardinality({i \in IdsOf(s, code) : held[i] > 0})
 ====
